@@ -47,8 +47,15 @@ Not context managers, hence not in the table: `pg.allow_empty_field_description`
 `set_load_handler`/`set_save_handler` (plain process-wide setters).  Internal
 scopes without public entry (`View._track_rendering`,
 `Functor._apply_call_time_overrides_to_members`, `HtmlControl.track_scripts`)
-and the scopes built on `dynamic_evaluate` (`DynamicEvaluationContext.collect/
-apply`) are outside the property text.
+are outside the property text.  `DynamicEvaluationContext.apply` ("dynamic
+evaluation" of the property text: the decisions of a search space are in
+effect inside the block) is in the table; `collect` only builds the probe
+contexts.
+
+A manager may have a *validating exit* (`exit_raises`): leaving the block
+normally raises an error of the library's own (`apply` with decisions the body
+did not consume).  That is one more way of "leaving the block by exception":
+the restore law is judged for it like for any other exit.
 """
 import copy
 import threading
@@ -312,6 +319,10 @@ class Env:
     self.exit_token = None
     self.exit_exc = None
     self.foreign_process_de = False   # another thread uses dynamic_evaluate(per_thread=False)
+    # DynamicEvaluationContext objects / DNA objects of the program this thread
+    # runs (built by `prepare_contexts` in the default state)
+    self.dectx = {}
+    self.dedna = {}
 
   def tick(self):
     self.n += 1
@@ -327,7 +338,8 @@ def default_state():
       notify=True, typecheck=True, partial=None, sealed=None, aw=None,
       origin=False, autocall=NOSCOPE, ctxov={}, objov={}, strfmt={},
       reprfmt={}, viewopt={}, codectx={}, perm=None, detour={},
-      de_tls=NOSCOPE, de_glob=None, preset={}, ltypes={}, timeit=(), tla={})
+      de_tls=NOSCOPE, de_glob=None, preset={}, ltypes={}, timeit=(), tla={},
+      dectx={})
   for k in TLV_KEYS:
     st['tlv:' + k] = NOSCOPE
   return st
@@ -353,12 +365,28 @@ def _ok_or_exc(f):
 # ---------------------------------------------------------------------------
 class Manager:
   def __init__(self, name, scope, rule, gen, make, push, yielded=None,
-               enter=None, slots=()):
+               enter=None, slots=(), exit_raises=None, first=None,
+               first_expect=None, usable=None):
     self.name, self.scope, self.rule = name, scope, rule
     self.gen, self.make, self.push = gen, make, push
     self._yielded = yielded
     self._enter = enter
     self.slots = slots
+    # validating exit: (args) -> True if leaving the block normally raises an
+    # error of the library's own (documented validation at exit)
+    self._exit_raises = exit_raises
+    # first statement of every block of this manager (the documented use of
+    # the setting, e.g. evaluating the search space under `apply`):
+    # first(args, env) -> observation, first_expect(state, args, env)
+    self.first, self.first_expect = first, first_expect
+    # (state, spec) -> may a block of this manager be generated here?
+    self._usable = usable
+
+  def exit_raises(self, args):
+    return bool(self._exit_raises and self._exit_raises(args))
+
+  def usable(self, state, spec):
+    return True if self._usable is None else self._usable(state, spec)
 
   def yielded(self, state, args, env):
     return DONTCARE if self._yielded is None else self._yielded(state, args, env)
@@ -711,6 +739,153 @@ _register(_DEManager(
     slots=('de_tls', 'de_glob')))
 
 
+# -- DynamicEvaluationContext.apply (rule: replace; per thread and context) ---
+APPLY = 'DynamicEvaluationContext.apply'
+DECTX_CANDS = {'a': [11, 12, 13], 'b': [21, 22, 23], 'c': [31, 32, 33]}
+# kind of context -> (names of its search space in order, constructor kwargs,
+# is the search space collected by the context (else: external DNASpec),
+# weight in generation)
+DECTX_KINDS = {
+    'c1': (('a', 'b', 'c'), {}, True, 3),
+    'c2': (('a', 'b'), {'require_hyper_name': True}, True, 1),
+    'c3': (('a', 'b', 'c'), {}, False, 2),
+    'c4': (('a', 'b'), {'require_hyper_name': True}, False, 2),
+}
+# The hyper primitives themselves, created outside any dynamic evaluation.
+DECTX_HP = {n: pg.oneof(c, name=n) for n, c in DECTX_CANDS.items()}
+_DECTX_SPECS = {}
+_DECTX_LOCK = threading.Lock()
+
+
+def _dectx_space(names):
+  return [pg.oneof(DECTX_CANDS[n], name=n) for n in names]
+
+
+def _dectx_spec(names):
+  """DNASpec of the search space over `names` (shared, read-only)."""
+  with _DECTX_LOCK:
+    if names not in _DECTX_SPECS:
+      c = pg.hyper.DynamicEvaluationContext()
+      with c.collect():
+        _dectx_space(names)
+      _DECTX_SPECS[names] = c.dna_spec
+    return _DECTX_SPECS[names]
+
+
+def prepare_contexts(env, nodes):
+  """Builds the contexts and DNA objects the `apply` statements of a program
+  use.  Called by the thread that runs the program before its first statement
+  (i.e. in the default state: building symbolic objects is entangled with the
+  write / type-check scopes)."""
+  def walk(ns):
+    for n in ns:
+      if n['k'] == 'with' and n['m'] == APPLY:
+        yield n['a']
+      yield from walk(n.get('body', ()))
+  for a in walk(nodes):
+    kind = a['ctx']
+    if kind not in env.dectx:
+      names, kw, collected, _ = DECTX_KINDS[kind]
+      if collected:
+        c = pg.hyper.DynamicEvaluationContext(**kw)
+        with c.collect():
+          _dectx_space(names)
+      else:
+        c = pg.hyper.DynamicEvaluationContext(dna_spec=_dectx_spec(names), **kw)
+      env.dectx[kind] = c
+    key = tuple(a['decisions'])
+    if a['form'] == 'dna' and key not in env.dedna:
+      env.dedna[key] = pg.DNA(list(key))
+
+
+def _apply_gen(rng, env, state):
+  kinds = sorted(DECTX_KINDS)
+  kind = rng.choices(kinds, [DECTX_KINDS[k][3] for k in kinds])[0]
+  names, kw, _, _ = DECTX_KINDS[kind]
+  consume = rng.randint(1, len(names))
+  if kw.get('require_hyper_name'):
+    n = len(names)            # decisions are validated against the DNASpec
+  else:
+    n = consume + rng.choice([0, 0, 0, 1, 2])
+  return {'ctx': kind, 'form': rng.choice(['list', 'list', 'dna']),
+          'decisions': [rng.randint(0, 2) for _ in range(n)], 'consume': consume}
+
+
+def _apply_make(args, env):
+  d = (env.dedna[tuple(args['decisions'])] if args['form'] == 'dna'
+       else list(args['decisions']))
+  return env.dectx[args['ctx']].apply(d)
+
+
+def _apply_push(state, args, env):
+  cur = dict(state['dectx'])
+  cur[args['ctx']] = tuple(args['decisions'])
+  return _set(state, dectx=cur, de_tls='apply:' + args['ctx'])
+
+
+def _apply_exit_raises(args):
+  """`apply` "make[s] sure all decisions are used" when the block is left
+  normally: every name the body did not evaluate leaves a decision over."""
+  return args['consume'] < len(args['decisions'])
+
+
+def _apply_first(args, env):
+  """`with context.apply(decisions): fun()`: the first statement of the block
+  evaluates (a prefix of) the search space the way user code does."""
+  names = DECTX_KINDS[args['ctx']][0][:args['consume']]
+  return tuple(_outcome(lambda n=n: pg.oneof(DECTX_CANDS[n], name=n))[1]
+               for n in names)
+
+
+def _apply_first_expect(state, args, env):
+  names = DECTX_KINDS[args['ctx']][0][:args['consume']]
+  return tuple(DECTX_CANDS[n][d] for n, d in zip(names, args['decisions']))
+
+
+def _apply_usable(state, spec):
+  # building hyper primitives is entangled with the write / type-check scopes;
+  # per-thread evaluation inside a process-wide one is not documented
+  return not (state['sealed'] is True or not state['typecheck']
+              or state['de_glob'] is not None
+              or getattr(spec, 'foreign_process_de', False))
+
+
+class _ApplyManager(Manager):
+
+  def label(self, state, args, env):
+    # (the same context object applied inside its own `apply` block is a
+    # different mechanism: re-entrance)
+    return self.name + ('@nested' if args['ctx'] in state['dectx'] else '')
+
+
+_register(_ApplyManager(
+    APPLY, 'thread', 'replace', _apply_gen, _apply_make, _apply_push,
+    yielded=lambda s, a, e: None, slots=('dectx', 'de_tls'),
+    exit_raises=_apply_exit_raises, first=_apply_first,
+    first_expect=_apply_first_expect, usable=_apply_usable))
+
+
+def de_apply_effective(st):
+  """Is the effective evaluation function the one of an `apply` block?  Then
+  evaluating an anonymous hyper primitive consumes one of its decisions."""
+  return isinstance(st['de_tls'], str) and st['de_tls'].startswith('apply:')
+
+
+def de_tag(env, fn):
+  """Stable tag of an evaluation function."""
+  try:
+    if fn in DE_TAG:
+      return DE_TAG[fn]
+  except TypeError:
+    return 'other'
+  owner = getattr(fn, '__self__', None)
+  if owner is not None and getattr(fn, '__name__', '') == 'evaluate':
+    for k, c in sorted(getattr(env, 'dectx', {}).items()):
+      if c is owner:
+        return 'apply:' + k
+  return 'other'
+
+
 # -- preset_args (rule: replace per preset name unless inherit_preset) --------
 def _preset_gen(rng, env, state):
   names = rng.sample(['y', 'z'], rng.randint(0, 2))
@@ -885,8 +1060,11 @@ class Event:
   of the calls it made (how many of them raise depends on the settings in
   effect and is not judged)."""
 
-  def __init__(self, name, mgr, apply, scope='thread', focus=None):
+  def __init__(self, name, mgr, apply, scope='thread', focus=None, perturbs=None):
     self.name, self.mgr, self.apply, self.scope = name, mgr, apply, scope
+    # (state) -> True where the event itself would change a setting by
+    # documented behaviour (it is not run there)
+    self.perturbs = perturbs
     # managers whose costly observers are evaluated around the event
     self.focus = tuple(focus) if focus else (mgr,)
 
@@ -894,8 +1072,8 @@ class Event:
 EVENTS = {}
 
 
-def _event(name, mgr, apply, scope='thread', focus=None):
-  EVENTS[name] = Event(name, mgr, apply, scope, focus)
+def _event(name, mgr, apply, scope='thread', focus=None, perturbs=None):
+  EVENTS[name] = Event(name, mgr, apply, scope, focus, perturbs)
 
 
 def _calls(*fs):
@@ -983,7 +1161,9 @@ _event('permitted-code-raises', 'coding.permission', _calls(
                               sandbox=False)))
 _event('evaluate-fn-raises', 'dynamic_evaluate', _calls(
     lambda env: pg.oneof([RAISE, 2]),
-    lambda env: pg.floatv(2.0, 1.0)))           # invalid hyper value: the ctor raises
+    lambda env: pg.floatv(2.0, 1.0)),           # invalid hyper value: the ctor raises
+       # (under `apply` an anonymous hyper primitive consumes a decision)
+       perturbs=lambda st: de_apply_effective(st))
 _event('preset-call-raises', 'preset_args', _calls(lambda env: pf(RAISE)))
 _event('deserialized-init-raises', 'load_types_for_deserialization', _calls(
     lambda env: pg.from_json({'_type': 'c17nomod.LT1', 'x': 'not-an-int'},
@@ -1002,8 +1182,11 @@ def _timed_raise():
 # ---------------------------------------------------------------------------
 class Observer:
   def __init__(self, name, mgr, kind, observe, expect, scope='thread',
-               heavy=False, solo_only=False, intrusive=False):
+               heavy=False, solo_only=False, intrusive=False, perturbs=None):
     self.name, self.mgr, self.kind = name, mgr, kind
+    # (state) -> True where evaluating the observer would itself change a
+    # setting by documented behaviour (it is not evaluated there)
+    self.perturbs = perturbs
     self.observe, self.expect = observe, expect
     self.scope, self.heavy, self.solo_only = scope, heavy, solo_only
     # intrusive observers enter a scope themselves and are not evaluated
@@ -1337,7 +1520,7 @@ def _de_oneof(env):
 
 
 def _de_oneof_expect(st, env):
-  if _write_blocked(st):
+  if _write_blocked(st) or de_apply_effective(st):
     return DONTCARE
   e = _de_getter_expect(st, env)
   if e == DONTCARE:
@@ -1347,8 +1530,34 @@ def _de_oneof_expect(st, env):
 
 if _get_de_fn is not None:
   _obs('de.getter', 'dynamic_evaluate', 'getter',
-       lambda env: DE_TAG.get(_get_de_fn(), 'other'), _de_getter_expect)
-_obs('de.oneof', 'dynamic_evaluate', 'behaviour', _de_oneof, _de_oneof_expect)
+       lambda env: de_tag(env, _get_de_fn()), _de_getter_expect)
+_obs('de.oneof', 'dynamic_evaluate', 'behaviour', _de_oneof, _de_oneof_expect,
+     perturbs=de_apply_effective)
+
+
+# DynamicEvaluationContext.apply: what the contexts of this thread's program
+# evaluate the first hyper primitive of their search space to (`evaluate` is
+# the public method `apply` installs; outside `apply` it raises).  Only the
+# first name: the first statement of every `apply` block evaluates it, so the
+# probe never consumes a decision.
+def _dectx_probe(env):
+  return tuple(_outcome(lambda c=c: c.evaluate(DECTX_HP['a']))[1]
+               for _, c in sorted(env.dectx.items()))
+
+
+def _dectx_expect(st, env):
+  out = []
+  for k in sorted(getattr(env, 'dectx', {})):
+    if k not in st['dectx']:
+      out.append('ValueError')     # "needs to be called under the `apply` context"
+    elif st['sealed'] is True:
+      out.append(DONTCARE)         # `evaluate` builds a symbolic list
+    else:
+      out.append(DECTX_CANDS['a'][st['dectx'][k][0]])
+  return tuple(out)
+
+
+_obs('dectx.evaluate', APPLY, 'behaviour', _dectx_probe, _dectx_expect)
 
 
 def _de_receptive(env):
